@@ -99,6 +99,8 @@ class Report:
     # -- violations -----------------------------------------------------------------------------------------------
     @staticmethod
     def _matches(k, key):
+        if k.get('keys'):
+            return key in k['keys']
         if k.get('key_re'):
             return re.search(k['key_re'], key) is not None
         return bool(k.get('key')) and key.startswith(k['key'])
